@@ -83,6 +83,8 @@ def outcome(fn, *a, **kw):
         return {"crash": str(e)}
     except Exception as e:  # noqa - a raising generation is an outcome, not a harness error
         msg = str(e).split("\n", 1)[0]
+        if isinstance(e, RecursionError):
+            msg = "<recursion limit>"  # where exactly the limit is hit is not part of the outcome
         return {"exc": type(e).__name__, "msg": _HEX.sub("0x?", msg)[:300]}
 
 
@@ -104,7 +106,8 @@ def infer(models, options):
     return gen, reg
 
 
-def render(reg, options, structure=None, framework=None):
+def render(reg, options, structure=None, framework=None, kwargs_obj=None):
+    """kwargs_obj: an existing class_generator_kwargs dict to pass AS IS (a caller re-using one options object)."""
     structure = structure or options.get("structure", "flat")
     o = dict(options)
     if framework:
@@ -112,7 +115,7 @@ def render(reg, options, structure=None, framework=None):
     return generate_code(
         STRUCTURES[structure](reg.models_map),
         GENERATORS[o.get("framework", "base")],
-        class_generator_kwargs=gen_kwargs(o),
+        class_generator_kwargs=kwargs_obj if kwargs_obj is not None else gen_kwargs(o),
         preamble=options.get("preamble") or None,
     )
 
